@@ -9,7 +9,7 @@ from ..guards import sites
 from ..layout import Env, MiniArray, eval_expr, prod
 from ..registry import describe, rule
 from .. import tmatch as tm
-from ..util import calls_named, const_str, peel, returns_of
+from ..util import deep_resolve, calls_named, const_str, peel, returns_of
 
 BIF = "pgmpy/readwrite/BIF.py"
 XML = "pgmpy/readwrite/XMLBIF.py"
@@ -194,7 +194,8 @@ def layout(rc):
     # ---------------- NET
     wn = repo.func(NET, "NETWriter.net_cpd")
     d = _defs(wn)
-    a2s = [c for c in repo.calls_in(wn) if call_name(c) == "array2string" and c.args]
+    a2s = [c for c in repo.calls_in(wn) if call_name(c) in ("array2string", "str", "repr", "array_str", "array_repr") and c.args
+           and any(isinstance(x, ast.Call) and call_name(x) in ("moveaxis", "transpose", "to_numpy", "swapaxes") for x in ast.walk(deep_resolve(c.args[0], {k: v[0] for k, v in d.items() if len(v) == 1})))]
     arr = d.get(dotted(a2s[0].args[0]), [None])[0] if a2s and isinstance(a2s[0].args[0], ast.Name) else (a2s[0].args[0] if a2s else None)
     if arr is None:
         raise AnalysisError("NETWriter.net_cpd: printed array not found")
@@ -202,12 +203,13 @@ def layout(rc):
     for k, v in d.items():
         if tm.is_(v[0], "self.tables[_v]") is not None:
             nenv[k] = T
+    nenv["__by_text__"] = {norm(x): T for x in ast.walk(arr) if isinstance(x, ast.Subscript) and tm.is_(x, "self.tables[_v]") is not None}
     seqn = eval_expr(arr, nenv).ravel("C")
     rn = repo.func(NET, "NETReader.get_values")
     d2 = _defs(rn)
-    st2 = [n for n in ast.walk(rn.node) if isinstance(n, ast.Assign) and isinstance(n.targets[0], ast.Subscript) and isinstance(n.value, ast.Name)
+    st2 = [n for n in ast.walk(rn.node) if isinstance(n, ast.Assign) and isinstance(n.targets[0], ast.Subscript)
            and any(dotted(r_.value) == dotted(n.targets[0].value) for r_ in returns_of(rn))]
-    c2 = d2.get(st2[0].value.id, [None])[0] if st2 else None
+    c2 = (d2.get(st2[0].value.id, [None])[0] if isinstance(st2[0].value, ast.Name) else st2[0].value) if st2 else None
     if c2 is None:
         raise AnalysisError("NETReader.get_values: stored table not found")
     e2 = Env()
@@ -220,6 +222,15 @@ def layout(rc):
                 e2[x.id] = Q1 * Q2
             elif isinstance(dv, ast.Call) and call_name(dv) == "len":
                 e2[x.id] = R
+    bt = {}
+    for x in ast.walk(c2):
+        if isinstance(x, ast.Call) and call_name(x) == "array" and dotted(x.func.value if isinstance(x.func, ast.Attribute) else x.func) in ("np", "numpy", "array"):
+            bt[norm(x)] = seqn
+        elif isinstance(x, ast.Call) and call_name(x) == "prod":
+            bt[norm(x)] = Q1 * Q2
+        elif isinstance(x, ast.Call) and call_name(x) == "len":
+            bt[norm(x)] = R
+    e2["__by_text__"] = bt
     two = eval_expr(c2, e2)
     rc.ob(f"NET: writer {norm(arr)} -> reader {norm(c2)}")
     _check_identity(rc, rn, c2, two, "NET")
@@ -263,6 +274,8 @@ def layout(rc):
             if b1 is not None:
                 for l2 in [n for n in ast.walk(rb.node) if isinstance(n, ast.For)]:
                     b2 = tm.is_(l2, "for _pl in _CP:\n    _ST = _pl[:len(_PA)]\n    _VL = [float(_i) for _i in _pl[len(_PA):]]\n    _VD[tuple(_ST)] = _VL", b1)
+                    if b2 is None:
+                        b2 = tm.is_(l2, "for _pl in _CP:\n    _VD[tuple(_pl[:len(_PA)])] = [float(_i) for _i in _pl[len(_PA):]]", b1)
                     if b2 is not None:
                         ok_r = ok_split = True
     rc.ob(f"BIF reader: rows keyed by state tuples and placed by the product over the header's parents ({ok_r}); split at len(parents) ({ok_split})")
@@ -361,7 +374,7 @@ def numbers(rc):
     f = repo.func(UAI, "UAIReader.get_grammar")
     d = _defs(f)
     e = None
-    for n_, b_ in tm.find_all(f.node, "(_FN * int(_nv)).setResultsName('fun_values_' + str(_fu))", nested=True):
+    for n_, b_ in tm.find_all(f.node, "(_FN * int(__NV)).setResultsName('fun_values_' + str(_fu))", nested=True):
         e = d.get(b_["_FN"], [None])[0]
     ok = False
     if isinstance(e, ast.Call) and call_name(e) == "Regex" and e.args and isinstance(e.args[0], ast.Constant):
@@ -431,8 +444,8 @@ def delims(rc):
             for f in ci.methods.values():
                 d = _defs(f)
                 for c in repo.calls_in(f):
-                    if isinstance(c.func, ast.Name) and c.func.id in ("str", "repr") and c.args and isinstance(c.args[0], ast.Name):
-                        src = d.get(c.args[0].id, [None])[0]
+                    if isinstance(c.func, ast.Name) and c.func.id in ("str", "repr") and c.args:
+                        src = d.get(c.args[0].id, [None])[0] if isinstance(c.args[0], ast.Name) else (c.args[0] if isinstance(c.args[0], ast.Call) else None)
                         if src is not None and any(isinstance(x, ast.Call) and call_name(x) in ("moveaxis", "to_numpy", "array", "get_values", "reshape", "ravel", "transpose") for x in ast.walk(src)):
                             rc.fail(f, c, f"{f.qual}: str() of a whole array — numpy summarises arrays above its print threshold with '...', so large tables are truncated",
                                     construct=f"{f.qual} str(ndarray)")
@@ -467,6 +480,9 @@ def dispatch(rc):
             if isinstance(n, ast.Assign) and isinstance(n.targets[0], ast.Name) and isinstance(n.value, ast.Set) and all(const_str(e) is not None for e in n.value.elts) \
                     and tm.has(f.node, "filename.split('.')[-1].lower() in _SF", {"_SF": n.targets[0].id}, nested=True):
                 fmts = {const_str(e) for e in n.value.elts}
+        for n_, b_ in tm.find_all(f.node, "filename.split('.')[-1].lower() in __SF", nested=True):
+            if isinstance(b_["__SF"], ast.Set) and all(const_str(e) is not None for e in b_["__SF"].elts):
+                fmts = {const_str(e) for e in b_["__SF"].elts}
         tbl = {}
         for s in sites(f.node, lambda n: isinstance(n, ast.Call) and isinstance(n.func, ast.Name) and re.fullmatch(r"\w+(Writer|Reader)", n.func.id or "")):
             tag = None
